@@ -14,6 +14,13 @@ import (
 )
 
 //verif:guarded Routers mutex indexByDomain
+//verif:lock-held (*~/pkg/util/vhost.Routers).exist mutex
+
+// C16 "mutexes around every shared map": every method of these types (and every
+// function literal inside them), whether or not it has a contract of its own,
+// is swept for accesses to the guarded fields without the lock.
+//
+//verif:sweep-type Routers props=C16 kinds=lock
 
 // Monitor invariant of the route table. For every (domain, user) list: entries
 // carry their own keys, domains are stored lower-case, and locations are
